@@ -276,6 +276,24 @@ func (e *Engine) binop(fr *frame, x *ssa.BinOp, reach string) Val {
 	case token.SUB:
 		return mk("bvsub")
 	case token.MUL:
+		_, la := e.sc.lit(sa.T)
+		_, lb := e.sc.lit(sb.T)
+		if !la && !lb && n == 64 {
+			// symbolic 64-bit product: an uninterpreted function with sound lemmas (the
+			// bit-level multiplier is very expensive for the solvers and the proofs here
+			// only need congruence)
+			e.sc.declareFun("mul64", []string{SI64, SI64}, SI64)
+			r := e.sc.define("mul", SI64, app("mul64", sa.T, sb.T))
+			key := "mul|" + sa.T + "|" + sb.T
+			if !e.litFacts[key] {
+				e.litFacts[key] = true
+				e.sc.assume(eq(r, app("mul64", sb.T, sa.T)))
+				e.sc.assume(implies(eq(sb.T, bvLit(1, 64)), eq(r, sa.T)))
+				e.sc.assume(implies(eq(sa.T, bvLit(1, 64)), eq(r, sb.T)))
+				e.sc.assume(implies(or(eq(sa.T, bvLit(0, 64)), eq(sb.T, bvLit(0, 64))), eq(r, bvLit(0, 64))))
+			}
+			return Sc{r, SI64}
+		}
 		return mk("bvmul")
 	case token.QUO, token.REM:
 		e.panicSite(fr, x, reach, not(eq(sb.T, bvLit(0, n))), "div-by-zero")
